@@ -366,6 +366,10 @@ pub fn run(which: Which, args: &Args) -> i32 {
             ev.count("grid_fully_enumerated", 1);
         }
     }
+    if which == Which::C01 {
+        // the real RTU server task on a pty that is lost and comes back (net engine)
+        crate::util::merge_net_leg(&mut ev, args, "c01pty");
+    }
     if which == Which::C08 {
         run_read_only_direct(seed, &mut ev);
         // the certificate -> role -> authorization path on a real TLS server (net engine, independent peer)
